@@ -134,19 +134,20 @@ theorem writeSegmentInternal_ops (cfg : Orig.Cfg) (scratchLen idx1 : Nat) (bytes
         generalize st.getD 0 0xFF = b
         by_cases hw : b = Consts.O_DATA_WRITTEN
         · simp only [hw, ↓reduceIte, OrigRun.run_bind, OrigRun.liftM_run]
-          have hs2 := readTo_state p.dataStart scratchLen d1
-          cases hr2 : (readTo p.dataStart scratchLen).run d1 with
-          | mk r2 d2 =>
-            rw [hr2] at hs2; simp only at hs2; subst hs2
-            cases r2 with
-            | error e => exact ⟨[], rfl, by simp⟩
-            | ok got =>
-              simp only
-              by_cases c1 : bytes.length > scratchLen
-              · exact ⟨[], by simp [c1, OrigRun.run_throw, OrigRun.run_bind], by simp⟩
-              · by_cases c3 : got.take bytes.length = bytes
-                · exact ⟨[], by simp [c1, c3, OrigRun.run_pure, OrigRun.run_bind], by simp⟩
-                · exact ⟨[], by simp [c1, c3, OrigRun.run_throw, OrigRun.run_bind], by simp⟩
+          by_cases c1 : bytes.length > scratchLen
+          · exact ⟨[], by simp [c1, OrigRun.run_throw, OrigRun.run_bind], by simp⟩
+          · simp only [c1, ↓reduceIte, OrigRun.run_bind, OrigRun.liftM_run, OrigRun.run_pure]
+            have hs2 := readTo_state p.dataStart bytes.length d1
+            cases hr2 : (readTo p.dataStart bytes.length).run d1 with
+            | mk r2 d2 =>
+              rw [hr2] at hs2; simp only at hs2; subst hs2
+              cases r2 with
+              | error e => exact ⟨[], rfl, by simp⟩
+              | ok got =>
+                simp only
+                by_cases c3 : got.take bytes.length = bytes
+                · exact ⟨[], by simp [c3, OrigRun.run_pure, OrigRun.run_bind], by simp⟩
+                · exact ⟨[], by simp [c3, OrigRun.run_throw, OrigRun.run_bind], by simp⟩
         · simp only [hw, ↓reduceIte, OrigRun.run_bind, OrigRun.run_pure]
           by_cases hn : b ≠ Consts.O_DATA_NOT_WRITTEN
           · exact ⟨[], by simp [hn, OrigRun.run_throw, OrigRun.run_bind], by simp⟩
